@@ -53,6 +53,35 @@ class EvilStr(Exception):
     __repr__ = __str__
 
 
+def _one(a):
+    return a
+
+
+class ArityLike(TypeError):
+    """a user-defined TypeError subclass whose text quotes an arity message"""
+
+
+# statements that fail *inside* the callable's body; the exception object and its message are the interpreter's own
+NATURAL_FAILURES = {
+    "arity_of_helper": lambda args: _one(args[0], args[0]),            # TypeError: _one() takes 1 positional argument but 2 were given
+    "arity_of_method": lambda args: first_leaf(args).powi(2, 3),       # TypeError from the extension module's own argument parsing
+    "missing_argument": lambda args: _one(),                           # TypeError: _one() missing 1 required positional argument
+    "unsupported_operand": lambda args: first_leaf(args) + "a",
+    "name_error": lambda args: undefined_name_in_callable,             # noqa: F821
+    "index_error": lambda args: [][1],
+    "key_error": lambda args: {}["missing"],
+    "attribute_error": lambda args: None.value,
+    "float_of_text": lambda args: float("not a number"),
+    "assertion": lambda args: (_ for _ in ()).throw(AssertionError("derivative of a branch that must not be taken")),
+    "recursion": lambda args: _recurse(),
+    "subclass_quoting_arity": lambda args: (_ for _ in ()).throw(ArityLike("f() takes 1 positional argument but 2 were given")),
+}
+
+
+def _recurse():
+    return _recurse()
+
+
 EXC_KINDS = {
     "custom": Injected,
     "evil_str": EvilStr,
@@ -171,6 +200,14 @@ class Probe:
         fire = p["kind"] != "none" and (k == p["at"] or (p.get("permanent") and k >= p["at"]))
         self.log.append(("call", k, bool(fire)))
         if fire:
+            if p["kind"] == "natural":
+                try:
+                    NATURAL_FAILURES[p["what"]](args)
+                except BaseException as e:  # noqa: BLE001
+                    if self.injected is None:
+                        self.injected = e
+                    raise
+                raise SystemExit(f"harness error: natural failure {p['what']} did not fail")
             if p["kind"] == "raise":
                 e = EXC_KINDS[p["exc"]](f"injected at invocation {k}")
                 if self.injected is None:
@@ -289,6 +326,8 @@ def plans_for(tier):
     for k in (2, 3) if tier == "quick" else (2, 3, 4, 7):
         plans.append({"kind": "raise", "exc": "custom", "at": k})
         plans.append({"kind": "raise", "exc": "type_error", "at": k, "permanent": True})
+    for what in NATURAL_FAILURES:
+        plans.append({"kind": "natural", "what": what, "at": 1})
     for ret in WRONG_RETURNS:
         plans.append({"kind": "wrong_return", "ret": ret, "at": 1})
     plans.append({"kind": "wrong_return", "ret": "none", "at": 2})
@@ -325,7 +364,8 @@ def judge(case, plan, r0, out, pr):
                     f"{str(out)[:100]} vs {str(r0)[:100]}")
         return None
     first_fire = next(e[1] for e in pr.log if e[2])
-    if plan["kind"] == "raise" and first_fire == 1:
+    if plan["kind"] in ("raise", "natural") and first_fire == 1:
+        plan = dict(plan, exc=plan.get("exc", plan.get("what")))
         if out["kind"] != "raise":
             return ("F1_error_swallowed", f"the callable raised {plan['exc']} on its first invocation but the driver returned {str(out['value'])[:80]} "
                     f"(callable invoked {pr.calls} times); the Rust driver returns Err(e)")
@@ -477,7 +517,7 @@ def main():
             stats["runs"] += 1
             stats["faults_planned"] += 1
             fired = sum(1 for e in pr.log if e[2])
-            key = plan["kind"] + ":" + plan.get("exc", plan.get("ret", "same_driver_" + plan.get("when", "")))
+            key = plan["kind"] + ":" + plan.get("exc", plan.get("ret", plan.get("what", "same_driver_" + plan.get("when", ""))))
             if fired:
                 stats["fired_runs"] += 1
                 stats["faults_fired"][key] = stats["faults_fired"].get(key, 0) + fired
